@@ -435,3 +435,34 @@ func varargElems(v ssa.Value) []ssa.Value {
 func fmtPos(p *Program, pos token.Pos) string { return p.pos(pos) }
 
 var _ = fmt.Sprintf
+
+// controlConds: branch conditions the instruction is control dependent on (an If one of whose
+// successors — but not both — dominates the instruction's block).
+func controlConds(in ssa.Instruction) []ssa.Value {
+	var out []ssa.Value
+	b := in.Block()
+	for _, x := range in.Parent().Blocks {
+		if len(x.Instrs) == 0 {
+			continue
+		}
+		iff, ok := x.Instrs[len(x.Instrs)-1].(*ssa.If)
+		if !ok {
+			continue
+		}
+		d0 := x.Succs[0].Dominates(b) && len(x.Succs[0].Preds) == 1
+		d1 := x.Succs[1].Dominates(b) && len(x.Succs[1].Preds) == 1
+		if d0 != d1 {
+			out = append(out, iff.Cond)
+		}
+	}
+	return out
+}
+
+// SliceWithControl: slice of v plus the slices of the conditions `at` is control dependent on.
+func (s *slicer) SliceWithControl(v ssa.Value, at ssa.Instruction) *sliceRes {
+	res := s.Slice(v)
+	for _, c := range controlConds(at) {
+		s.walk(c, res, 0)
+	}
+	return res
+}
